@@ -16,6 +16,7 @@ struct VProgram {
     bool stateful = false;         // explore ALL schedules (no preemption bound), pruned at states that were reached before; needs a complete state_cb (and park_cb for waiter-local state)
     bool stateful_audit = false;   // audit: same search without cutting off at visited states (every schedule is executed); must reach exactly the same set of states
     void (*park_cb)(int tid) = nullptr;
+    int create_faults = 0;         // thread-creation failures (EAGAIN) that may be injected per execution (each costs 1 from the bound)
     int spurious = 0;              // spurious condition-variable wake-ups that may be generated per execution (each costs 1 from the bound)
     std::function<void()> body;    // runs as controlled thread 0; creates the object under test and the threads
     std::function<void()> post;    // optional: runs after the execution, outside the scheduler
